@@ -1385,18 +1385,27 @@ class Gen:
                 save = self.pick
                 self.pick = lambda kinds='SA', _r=r: _r
                 try:
-                    getattr(self, 'g_' + nm)()
+                    self._attempt(getattr(self, 'g_' + nm))
                 finally:
                     self.pick = save
+
+    def _attempt(self, fn):
+        """Run one generator.  Generators take the result register of a step they have just made for granted; when that
+        step failed on the implementation (its outcome is logged and judged like any other) the rest of the generator is
+        abandoned instead of crashing the driver."""
+        try:
+            fn()
+        except (IndexError, KeyError):
+            pass
 
     def step(self):
         names = list(self.w)
         name = self.rng.choices(names, [self.w[k] for k in names])[0]
-        getattr(self, 'g_' + name)()
+        self._attempt(getattr(self, 'g_' + name))
 
     def run(self, nops, start=2, epilogue=()):
         for _ in range(start):
-            self.g_new()
+            self._attempt(self.g_new)
         guard = 0
         while len(self.oplist) < nops and guard < nops * 4:
             guard += 1
